@@ -17,10 +17,12 @@ ANCHOR_FILES = ['/repo/channel.go', '/repo/node.go']
 
 def tasks(tier):
     ts = [Task('verifHarness_C13_enqueue', [0]), Task('verifHarness_C13_enqueue', [1]), Task('verifHarness_C13_full_queue_keeps_backlog', [])]
+    ts += [Task('verifHarness_C13_overflow_then_room', [d]) for d in ((1, 20, 40, 64) if tier == 'quick' else range(1, 65))]
     ts += [Task('verifHarness_C13_stall', [k]) for k in (0, 1, 2)]
     ts += [Task('verifHarness_C14_read_failure', [busy]) for busy in (0, 1, 2, 3)]
     ts += [Task('verifHarness_C13_failed_write', [cause, k, 0]) for cause in (0, 1, 2, 3, 4, 5, 6, 7, 8) for k in (1, 2, 3)]
     ts += [Task('verifHarness_C13_failed_write', [cause, 1, 1]) for cause in (0, 1)]
+    ts += [Task('verifHarness_C13_failed_write_full_backlog', [k]) for k in (0, 1)]
     ts += [Task('verifHarness_C13_node_keeps_serving', [p]) for p in (0, 1)]
     ts += [Task('verifHarness_C11_dispatch_closing', [kind, c]) for kind in (0, 1) for c in (0, 1, 2)]
     for kind in (0, 1, 2):
@@ -31,11 +33,12 @@ def tasks(tier):
 
 
 def required_reach(tier):
-    return ['C13/K2', 'C11/K1', 'C13/S', 'C13/L1', 'C14/L2', 'C13/N', 'C13/K2b', 'C11/K1c']
+    return ['C13/K2', 'C11/K1', 'C13/S', 'C13/L1', 'C14/L2', 'C13/N', 'C13/K2b', 'C13/K2c', 'C13/L1b', 'C11/K1c']
 
 
 def bounds(tier):
     return {'full_backlog': '64 distinct items queued on a channel set up by the real Channel.initialize, a 65th written: the 64 are kept in order, the newcomer is discarded, no blocking',
+            'overflow_then_room': '67 items written (3 discarded), d items taken off by the writer (d = 1, 20, 40, 64 quick; every d in 1..64 thorough), d+1 further items written: d are queued at the tail in order, the backlog is 64 again',
             'enqueue': 'one Channel.write with an arbitrary backlog 0..64 (symbolic), channel live or cancelled',
             'dispatch': 'one request through the node loop with 3 member channels + 1 foreign, every queue at an arbitrary fill level '
                         '(so any subset of channels is full): the loop consumes the request and returns to waiting; every non-full '
@@ -44,7 +47,7 @@ def bounds(tier):
             'node_level': 'ONE SCHEDULE: a real node over two custom links, the application not receiving events; a write to all links fails on link A (once / for good): two further writes to all links return and reach link B in order',
             'second_sentence': 'ONE SCHEDULE (goroutines run round-robin until each blocks, to quiescence): Channel.run with its reader blocked in the '
                                'transport; the k-th write (k = 1..3) of a message or of a forwarded frame fails with a transport error (once, or for good from then on; reported with a zero or with the full byte count; also forwarded frames whose message id the dialect does not know), or an item with an id outside the dialect '
-                               'cannot be encoded; also with the transport behind a no-op-Close wrapper (custom / UDP broadcast endpoints: KNOWN FINDING); then a further valid write: the channel was closed and reported once, or still delivers'}
+                               'cannot be encoded; also with the transport behind a no-op-Close wrapper (custom / UDP broadcast endpoints: KNOWN FINDING); then a further valid write: the channel was closed and reported once, or still delivers; L1b: the transport stalls inside a Write, 66 more items are written (backlog full), the stalled Write then fails with a generic or a timeout-type (net.Error) error, three further writes: closed and reported once, or delivering'}
 
 
 OUTSIDE = ['other interleavings of the three goroutines of a channel than the run-until-blocked round-robin one', 'transport Write blocking inside runWriter (a blocked goroutine is invisible to other '
